@@ -804,10 +804,54 @@ def rule_loop_typestate(res, rid, m):
                     res.bad(rid, "path:roles-exchanged:%s" % ("first" if "first segment is" in text else "continuation"), c.get("loc"), text)
             return len(seen_sw)
         raise Broken("decode loop: protocol cases without a path: %s" % sorted(missing0))
+    def already_erased(p):
+        """p skips its erase under a bool local that is true only after this endpoint's entry was erased earlier in the same frame walk:
+        declared false in front of the loop, set (to true only) right behind an erase of the current key, and no iteration that touches the
+        table in any other way comes back to the loop — so while the flag is true the entry is absent and the erase would do nothing."""
+        dec = m.decode
+        cfg = dec.cfg
+        for a in p.atoms:
+            if a[0] != "truth" or a[2] is not True:
+                continue
+            x = strip_all_casts(a[3])
+            if x.get("k") != "ref" or x.get("dk") != "local" or (x.get("t") or {}).get("k") != "bool":
+                continue
+            F = x["decl"]
+            dnode = next((n0 for n0 in dec.nodes() if n0.get("k") == "decl" and any(v.get("decl") == F for v in n0.get("vars", []))), None)
+            if dnode is None or any(y is dnode for y in walk(m.loop_stmt)):
+                continue
+            init = next(v.get("init") for v in dnode["vars"] if v.get("decl") == F)
+            if not isinstance(init, dict) or const_value(init) != 0:
+                continue
+            asg = [n0 for n0 in dec.nodes() if n0.get("k") in ("assign", "cassign") and strip_all_casts(n0["l"]).get("decl") == F] + \
+                  [n0 for n0 in dec.nodes() if n0.get("k") == "un" and n0.get("op") in ("pre++", "post++", "pre--", "post--", "&") and strip_all_casts(n0["e"]).get("decl") == F]
+            ok = bool(asg)
+            for n0 in asg:
+                if n0.get("k") != "assign" or const_value(n0["r"]) != 1:
+                    ok = False
+                    break
+                b0 = cfg.block_for(n0)
+                before = [dec.node(e) for e in cfg.blocks[b0].get("el", []) if isinstance(e, int) and e >= 0 and cfg.pos_of.get(e, -1) < cfg.pos_of[n0["id"]]]
+                if not any(y is not None and y.get("k") == "call" and (y.get("callee") or {}).get("nm") == "erase" and
+                           strip_all_casts(y.get("obj", {})).get("field") == m.table for y in before):
+                    ok = False
+                    break
+            if not ok:
+                continue
+            for q in ps:
+                if any(k != "erase" for k, _ in m.path_table_ops(q)) and (q.blocks and q.blocks[-1] == m.loop_block or getattr(q, "end_block", None) == m.loop_block):
+                    ok = False
+                    break
+            if ok:
+                return True
+        return False
+
     for p in ps:
         cls = classify(p)
         ops = m.path_table_ops(p)
         eff = [k for k, _ in ops if k != "index"]
+        if (not eff or eff[-1] != "erase") and (cls is None or EXPECT_LAST.get(cls) == "erase") and already_erased(p):
+            eff = eff + ["erase"]  # the entry is known to be gone
         desc = "%s: table ops %s" % (cls, [k for k, _ in ops])
         key = "path:%s" % (cls or "unclassified:" + ",".join("%s=%s" % (k.split("::")[-1], v) for k, v in sorted(p.truth_labels().items())))
         if cls is not None:
